@@ -11,9 +11,9 @@ RULE = ("random over (array, label-map) pairs of 1-3 D x 8 int + bool + 2 float 
         "neighbourhoods x 6 border modes; every output is compared with the extracted Coq model and judged by the extracted "
         "Coq specification (region folds, bbox_spec, borders_spec, same_labeling_spec, count_eq) or by the definition "
         "evaluated directly (remove_bordering, centre of mass as exact integer quotients). Non-trivial: >=2 distinct labels present")
-NOT_PROVED = ["bbox 2-D skip-ahead fast path, labeled.bbox and center_of_mass: the executable model is compared with the executable Coq "
-              "specification on every generated case, not yet proved equal for all inputs (is_same_labeling and the generic N-D "
-              "bbox scan are proved: is_same_labeling_correct, bbox_generic_is_spec)",
+NOT_PROVED = ["labeled.bbox (per-label boxes) and center_of_mass: the executable model is compared with the executable Coq "
+              "specification on every generated case, not proved equal for all inputs (is_same_labeling, the generic N-D bbox scan "
+              "and the 2-D skip-ahead fast path ARE proved: is_same_labeling_correct, bbox_generic_is_spec, bbox_fast2_is_spec)",
               "remove_bordering / filter_labeled (pure numpy glue) are checked against the definition directly",
               "center_of_mass: the final double divisions are outside the model (compared with the correctly rounded quotient)"]
 BUDGET_S = {"quick": 100, "thorough": 900}
